@@ -38,6 +38,9 @@ ALPHA = 1e-9
 CASE_TIMEOUT = 3000
 
 
+TIMEOUT_INCONCLUSIVE = True  # hangs are decided by quiescence in the simulator, not by the wall clock
+
+
 def budget(tier):
     return dict(shards=16, examples=0)
 
